@@ -106,7 +106,7 @@ def run(tier, seed, prop=PROP):
         v.violation(viol['sig'], viol.get('replay'))
     # a peer that stays connected but has stopped reading (its server-side writer blocks in the socket write):
     # reconnect under the same peer id, another peer leaving and rejoining, session expiry - nothing may wait for it
-    sp = vlib.run_vh_sharded(['stuck-peer', '-thruserv', srvb, '-rounds', '1' if tier == "quick" else '4'], 4, timeout=900)
+    sp = vlib.run_vh_sharded(['stuck-peer', '-thruserv', srvb, '-rounds', '1' if tier == "quick" else '4'], 5, timeout=900)
     for viol in sp['violations']:
         v.violation(viol['sig'], viol.get('replay'))
     if tot['drift']:
